@@ -28,6 +28,12 @@ def check(ctx):
     ctx.run(S.rule_every_stale_entry_rebuilt, "C08.P3", rr)
     ctx.run(S.rule_order_only, "C08.P3", rr)
     ctx.run(S.rule_owner_writes_only, "C08.P3", rr)
+    # 'older/newer' must mean the instants: frame typing of the normaliser and of the bundled stores' modified times
+    from .c18 import rule_normaliser_frames, rule_store_time_frames
+    from .extra import rule_fresh_time_untouched
+    ctx.run(rule_store_time_frames, "C08.P3")
+    ctx.run(rule_normaliser_frames, "C08.P3")
+    ctx.run(rule_fresh_time_untouched, "C08.P3", rr)
     ctx.run(R.rule_retry_loop, "C08.P2", rr)
     ctx.run(E.rule_first_error, "C08.P2", er)
     ctx.run(E.rule_callbacks_only_via_engine, "C08.P2", er, [rr.runcb, rr.stalecb])
